@@ -196,7 +196,8 @@ def worldLine (st : WState) (line : String) : WState × List String :=
       | _ => (none, lt)
     -- `gget` / `ggetmut` / `gins` / `grem`: the same operations through the generic storage traits — same model ops
     let lt := match lt with
-      | h :: rest => if ["gget", "ggetmut", "gins", "grem", "lget", "lgetmut"].contains h then (h.drop 1).toString :: rest else lt
+      | h :: rest => if ["gget", "ggetmut", "gins", "grem", "lget", "lgetmut", "pejoin"].contains h then (h.drop 1).toString :: rest
+                   else if h == "lazy_create_nobuild" then "lazy_create" :: rest else lt
       | [] => lt
     -- `ldrain2 k @h`: two look-ups of the same entity through a draining lending join. The first one is the model's
     -- `rem`; the component has then been moved out, so the second must not produce it again (C08: no operation exposes
@@ -211,6 +212,19 @@ def worldLine (st : WState) (line : String) : WState × List String :=
             if ok2 then [] else
               [s!"MON C08 case={st.caseId} line={st.lineNo} C08 a draining lending join handed out the component of the same entity a second time (a value that had already been moved out) op=[{" ".intercalate lt}] impl=[{r}]"])
          | _ => ("rem" :: rest, r, []))
+      | ["lentry2", k, h, v] =>
+        -- two look-ups of one entity through `entries().lend_join()`: the first is the model's `entry_or k h v 0`; the
+        -- second must see the component the first one left (C06: a mutation made through an item of a lending join is
+        -- visible to a later look-up of the same join; the entry reports present / absent correctly)
+        (match r.splitOn " / " with
+         | [first, second] =>
+           let want := if first == "err" then "none"
+                       else if first == "vac" then s!"occ {v}"
+                       else first        -- `occ <old>`: or_insert keeps the old value
+           (["entry_or", k, h, v, "0"], first,
+            if second == want then [] else
+              [s!"MON C06 case={st.caseId} line={st.lineNo} C06 second look-up through entries().lend_join() after or_insert through the first: {second}, expected {want} op=[{" ".intercalate lt}] impl=[{r}]"])
+         | _ => (["entry_or", k, h, v, "0"], r, []))
       | _ => (lt, r, [])
     let st := if drainOut.isEmpty then st else { st with mons := st.mons + 1 }
     let l := " ".intercalate lt
